@@ -17,6 +17,8 @@ let c01 s b =
     let vals = Array.of_list (times nvars (fun () -> next_f32 s)) in
     (skip, vals)) in
   let orc = parse_oracle s in
+  (* the hypothesis of the flatten theorems, checked on the arena the implementation built *)
+  (fun k -> k (); if not (arena_okb arena roots) then Printf.bprintf b " | aok 0") @@ fun () ->
   match flatten arena roots with
   | Err c -> Printf.bprintf b "ssa err %d" (int_of_nat c)
   | Ok (t, vars) ->
